@@ -207,6 +207,10 @@ func (w *World) sortOf(t types.Type) *Sort {
 	case *types.TypeParam:
 		return w.unSort(u.Obj().Name())
 	case *types.Pointer:
+		if a, ok := types.Unalias(u.Elem()).Underlying().(*types.Array); ok {
+			// a pointer to an array is represented by the slice over the whole array
+			return &Sort{Kind: KSlice, Name: "Slice", Elem: w.sortOf(a.Elem()), Go: t}
+		}
 		return sRef
 	case *types.Map, *types.Chan, *types.Signature, *types.Interface:
 		return sRef
